@@ -1,7 +1,8 @@
 package main
 
-// runThorough: filled in below (other build configurations, seeded-variant corpus).
+// runThorough: filled in below (other build configurations, seeded-variant corpus, behaviour-preserving refactorings as negative controls).
 func runThorough(def *propertyDef, w *World, r *Report, repo, verif string, st *runStats) {
 	thoroughConfigs(def, r, repo, st)
 	thoroughCorpus(def, r, repo, verif, st)
+	runBenign(def, r, repo, verif, st)
 }
